@@ -82,6 +82,15 @@ Definition needs_clone (r : nat) (ck : kind) (cid : N) (tpath : list key) (ins :
 
 Definition with_next (st : state) (nx : N) : state := mkState (roots st) nx.
 
+(* --- quirk flags: one per open finding, set by the harness from the replay of the finding's witness --------- *)
+Record quirks : Type := mkQuirks {
+  q_copy_drops_missing : bool   (* C07: copying a pg.List that holds MISSING_VALUE drops those items *)
+}.
+Definition no_quirks (q : quirks) : Prop := q_copy_drops_missing q = false.
+
+Section WithQuirks.
+Variable q : quirks.
+
 Definition formalize (sc : scope) (st : state) (r : nat) (ck : kind) (cid : N) (cfl : flags)
            (tpath : list key) (ins : bool) (rv : rvalue) : node * state :=
   match rv with
@@ -96,7 +105,7 @@ Definition formalize (sc : scope) (st : state) (r : nat) (ck : kind) (cid : N) (
           match get_at st vpos with
           | Some v =>
               if needs_clone r ck cid tpath ins vpos v then
-                let '(c, cs) := clone_at false (Some cid) tpath v (next_id st, []) in (c, with_next st (fst cs))
+                let '(c, cs) := clone_at (q_copy_drops_missing q) false (Some cid) tpath v (next_id st, []) in (c, with_next st (fst cs))
               else
                 (set_par (Some cid) (set_path tpath v),
                  match snd vpos with [] => set_root st (fst vpos) (Moved i) | _ => st end)
@@ -217,12 +226,12 @@ Inductive op (V : Type) : Type :=
 | DPopItem | DClear | DSetDefault (k : key) (v : V) | DUpdate (kvs : list (key * V)) | DIOr (kvs : list (key * V)) | DCopy
 | OSet (k : key) (v : V)
 | Rebind (pvs : list (list key * V)) | Clone (mode : N) | Seal (b : bool) | SetAW (b : bool).
-Arguments LSet {V}. Arguments LDel {V}. Arguments LAppend {V}. Arguments LInsert {V}. Arguments LExtend {V}.
-Arguments LPop {V}. Arguments LRemove {V}. Arguments LClear {V}. Arguments LReverse {V}. Arguments LSort {V}.
-Arguments LIAdd {V}. Arguments LIMul {V}. Arguments LAdd {V}. Arguments LMul {V}. Arguments LCopy {V}.
-Arguments DSet {V}. Arguments DDel {V}. Arguments DPop {V}. Arguments DPopItem {V}. Arguments DClear {V}.
-Arguments DSetDefault {V}. Arguments DUpdate {V}. Arguments DIOr {V}. Arguments DCopy {V}. Arguments OSet {V}.
-Arguments Rebind {V}. Arguments Clone {V}. Arguments Seal {V}. Arguments SetAW {V}.
+#[global] Arguments LSet {V}. #[global] Arguments LDel {V}. #[global] Arguments LAppend {V}. #[global] Arguments LInsert {V}. #[global] Arguments LExtend {V}.
+#[global] Arguments LPop {V}. #[global] Arguments LRemove {V}. #[global] Arguments LClear {V}. #[global] Arguments LReverse {V}. #[global] Arguments LSort {V}.
+#[global] Arguments LIAdd {V}. #[global] Arguments LIMul {V}. #[global] Arguments LAdd {V}. #[global] Arguments LMul {V}. #[global] Arguments LCopy {V}.
+#[global] Arguments DSet {V}. #[global] Arguments DDel {V}. #[global] Arguments DPop {V}. #[global] Arguments DPopItem {V}. #[global] Arguments DClear {V}.
+#[global] Arguments DSetDefault {V}. #[global] Arguments DUpdate {V}. #[global] Arguments DIOr {V}. #[global] Arguments DCopy {V}. #[global] Arguments OSet {V}.
+#[global] Arguments Rebind {V}. #[global] Arguments Clone {V}. #[global] Arguments Seal {V}. #[global] Arguments SetAW {V}.
 
 Record sop : Type := mkSop { o_scope : scope; o_pos : pos; o_op : op value }.
 
@@ -331,7 +340,7 @@ Fixpoint zip_keys {A} (ks : list Z) (l : list A) : list (Z * A) :=
 (* a fresh pg.List built from items (List(items)): nodes are cloned (they have a parent), MISSING is dropped *)
 Definition default_flags : flags := mkFlags false true false.
 Definition new_list_from (st : state) (its : list (key * node)) : node * state :=
-  let '(c, cs) := clone_at false None [] (Node 0%N KList None [] default_flags its) (next_id st, []) in
+  let '(c, cs) := clone_at (q_copy_drops_missing q) false None [] (Node 0%N KList None [] default_flags its) (next_id st, []) in
   (c, with_next st (fst cs)).
 
 (* --- rebind ------------------------------------------------------------------------------------------------------ *)
@@ -593,7 +602,7 @@ Definition exec (sc : scope) (st : state) (ps : pos) (tid : N) (tk : kind) (tpth
   | DUpdate kvs | DIOr kvs =>
       rebind_core sc st ps tk (map (fun kv => ([fst kv], snd kv)) kvs) false
   | DCopy =>
-      let '(c, cs) := clone_at false None [] (Node tid tk None [] tfl its) (next_id st, []) in
+      let '(c, cs) := clone_at (q_copy_drops_missing q) false None [] (Node tid tk None [] tfl its) (next_id st, []) in
       let st1 := with_next st (fst cs) in
       (add_root st1 c, Ok (RPos (length (roots st1), [])))
   | OSet k rv =>
@@ -616,7 +625,7 @@ Definition exec (sc : scope) (st : state) (ps : pos) (tid : N) (tk : kind) (tpth
       end
   | Clone m =>
       let deep := N.eqb m 1 || N.eqb m 3 in
-      let '(c, cs) := clone_at deep None [] (Node tid tk None [] tfl its) (next_id st, []) in
+      let '(c, cs) := clone_at (q_copy_drops_missing q) deep None [] (Node tid tk None [] tfl its) (next_id st, []) in
       let st1 := with_next st (fst cs) in
       (add_root st1 c, Ok (RPos (length (roots st1), [])))
   | Seal b => (update_at st ps (seal_rec b), Ok RNone)
@@ -655,6 +664,7 @@ Definition step (st : state) (o : sop) : state * outcome :=
 
 Definition stepS (st : state) (o : sop) : state := fst (step st o).
 Definition run_ops (st : state) (ops : list sop) : state := fold_left stepS ops st.
+End WithQuirks.
 
 (* the initial forest: every literal is a constructed value (built outside any scope) *)
 Fixpoint init_forest (ls : list lit) (st : state) : state :=
